@@ -677,6 +677,70 @@ def pam_codon_stage(ctx: Ctx):
         compare(ctx, d, d2, L, r, r2)
 
 
+def upstream_frameshift_design(rng):
+    """A frame-shifting background indel inside a coding exon that lies before (in transcript order) the exons of all targetons and outside every
+    targeton: it is not judged (C15 judges variants that start in a targeton) and moves the reading frame of everything downstream.  -> (design,
+    the same design on the pre-edited genome with the frames of the annotation chained again from the first exon, liftover) or None."""
+    d = gen.gen_sge(rng, {'p_bg': 0.0, 'p_gtf': 1.0, 'p_custom': 0.0, 'p_pam': 0.4, 'p_table': 0.0, 'n_exons': rng.choice([2, 3, 3]), 'allow_junction_pam': False,
+                          'exon_lens': [12, 17, 20, 22, 31], 'n_targetons': rng.choice([1, 2])})
+    if not d.get('gtf') or len(d['gtf']['cds']) < 2:
+        return None
+    U = d['ref'].upper()
+    cds = [list(c) for c in d['gtf']['cds']]
+    order = cds if d['strand'] == '+' else list(reversed(cds))
+    touched = lambda ex: any(t['ref_start'] - 3 <= ex[1] and ex[0] <= t['ref_end'] + 3 for t in d['targetons'])
+    if touched(order[0]) or not any(touched(ex) for ex in order[1:]):
+        return None
+    s_, e_ = order[0][0], order[0][1]
+    if e_ - s_ < 8:
+        return None
+    p = rng.randint(s_ + 2, e_ - 5)
+    ln = rng.choice([1, 2, 4])
+    if any(abs(x['pos'] - p) < ln + 3 for x in d.get('pam') or []):
+        return None
+    rec = ({'pos': p, 'ref': U[p - 1], 'alts': [U[p - 1] + gen.rand_dna(rng, ln)]} if rng.random() < 0.5 else
+           {'pos': p, 'ref': U[p - 1:p + min(ln, 2)], 'alts': [U[p - 1]]})
+    rec['id'] = 'bgfs'
+    d['bg'] = [rec]
+    d.pop('mask', None)
+    lifted = bg.lift_design(d)
+    if lifted is None:
+        return None
+    d2, L = lifted
+    # the annotation of the pre-edited genome: frames chained from the first exon over the new exon lengths
+    c2 = d2['gtf']['cds']
+    o2 = c2 if d['strand'] == '+' else list(reversed(c2))
+    for k in range(1, len(o2)):
+        prev = o2[k - 1]
+        o2[k][2] = (3 - ((prev[1] - prev[0] + 1 - prev[2]) % 3)) % 3
+    return d, d2, L
+
+
+def upstream_frameshift_stage(ctx: Ctx, accept=None):
+    import random
+    rng = random.Random(f'C06-upstream-frameshift-{ctx.seed}')
+    sub = ctx if accept is None else Ctx('C06', ctx.tier, ctx.seed, None)
+    if accept is not None:
+        sub.known, sub.matchers = [], {}
+    triples = []
+    for _ in range(80 * ctx.n(10, 100)):
+        if len(triples) >= ctx.n(10, 100):
+            break
+        t = upstream_frameshift_design(rng)
+        if t is not None:
+            triples.append(t)
+    res = pool_map(run_pair, [(d, d2) for d, d2, L in triples], chunksize=2)
+    for (d, d2, L), (_, r, r2) in zip(triples, res):
+        ctx.count('designs_with_an_upstream_frameshift')
+        compare(sub, d, d2, L, r, r2)
+    if accept is not None:
+        ctx.evaluations += sub.evaluations
+        for v in sub.violations:
+            if accept(v['case'].get('kind', ''), v['what']):
+                v['case']['via'] = 'upstream_frameshift_pair'
+                ctx.violation('spec_violation', 'frame-shifting background indel upstream - ' + v['what'], v['case'])
+
+
 def run(ctx: Ctx):
     context_stage(ctx)
     files(ctx)
@@ -684,6 +748,7 @@ def run(ctx: Ctx):
     lift_targeton_stage(ctx)
     two_strand_stage(ctx)
     pam_codon_stage(ctx)
+    upstream_frameshift_stage(ctx)
     return {'rule': 'Metamorphic on the real tool: random SGE designs with background SNV/MNV anywhere and non-coding insertions/deletions upstream of, inside and '
                     'downstream of the targetons (with BED masks, PAM edits, custom variants, 1-3 targetons) are run next to the same design on the pre-edited genome '
                     '(reference = splice of the unmasked variants, every coordinate lifted): rows must correspond one-to-one on all content columns except those touching '
